@@ -264,4 +264,138 @@ theorem splitCmdargs_eq (buf : Str) : splitCmdargs buf = some (cmdargsSpec buf) 
 theorem cmdargsSpec_no_quotes (s : Str) (h : DQ ∉ s ∧ SQ ∉ s) :
     cmdargsSpec s = runs (· == SP) s := cmdGo_no_quotes s h
 
+
+/-! ## the argv splitters -/
+
+/-- `argvc_internal_split(data, argv, argcmax)` on a NUL-terminated line
+(`text`, its terminator, anything behind it): no access behind the terminator,
+at most `argcmax` pointers are stored, and the C strings they point to after
+the call are exactly the first `argcmax` maximal runs of non-white-space
+characters of `text` (white space = `" \r\n\t"`).  The line keeps its length. -/
+theorem argvSplit_spec (text junk : Str) (argcmax : Nat) (hn : NUL ∉ text) :
+    ∃ r, argvSplit (text ++ NUL :: junk) argcmax = some r
+      ∧ r.argc = r.argv.length ∧ r.argc ≤ argcmax
+      ∧ argStrings r.mem r.argv = some ((runs isWsArgv text).take argcmax)
+      ∧ r.mem.length = (text ++ NUL :: junk).length := by
+  obtain ⟨r, h1, h2, h3, h4⟩ :=
+    argvSplitGo_spec argcmax ((text ++ NUL :: junk).length + 1) text junk 0 hn (by simp; omega)
+  refine ⟨r, h1, by omega, ?_, by simpa using h3, h4⟩
+  have := argStrings_length _ _ _ h3
+  rw [h2, Nat.zero_add, ← this, List.length_take]
+  omega
+
+-- the hypothesis is satisfiable, and a blank line gives argc = 0
+example : NUL ∉ ([0x20#8, 0x61#8, 0x09#8, 0x62#8] : Str) := by decide
+example : (argvSplit [0x20#8, 0x20#8, NUL] 10).map (·.argc) = some 0 := by decide
+
+/-- `argvc_internal_split_n(data, maxlen, argv, argcmax)` on exactly `maxlen`
+bytes, not terminated: no access at or behind `data[maxlen]`, at most `argcmax`
+pointers, and the strings they point to (up to the next NUL or to
+`data + maxlen`) are the first `argcmax` maximal runs of characters that are
+neither white space nor NUL -/
+theorem argvSplitN_spec (data : Str) (argcmax : Nat) :
+    ∃ r, argvSplitN data argcmax = some r
+      ∧ r.argc = r.argv.length ∧ r.argc ≤ argcmax
+      ∧ r.argv.map (cstrAtN r.mem) = (runs (fun c => c == NUL || isWsArgv c) data).take argcmax
+      ∧ r.mem.length = data.length := by
+  obtain ⟨r, h1, h2, h3, h4⟩ := argvSplitNGo_spec argcmax (data.length + 1) data 0 (by omega)
+  have hfun : strchrHit wsArgv = (fun c => c == NUL || isWsArgv c) := funext strchrHit_ws
+  rw [hfun] at h3
+  refine ⟨r, h1, by omega, ?_, by simpa using h3, h4⟩
+  have : r.argv.length = ((runs (fun c => c == NUL || isWsArgv c) data).take (argcmax - 0)).length := by
+    rw [← h3]; simp
+  rw [h2, Nat.zero_add, this, List.length_take]
+  omega
+
+/-! ## the shell dispatchers -/
+
+/-- all four dispatchers: on a NUL-terminated line the result is
+`dispatchSpec` of the first 10 white-space separated tokens — return code for
+empty and blank lines, ENOENT when the first token names no command,
+otherwise exactly one call, of the first entry (table order, then entry order)
+whose name equals the first token, with `argc - dropargs` and the tokens from
+`dropargs` on.  No access behind the terminator, never more than 10 arguments. -/
+theorem shellExecute_spec (rcEmpty : Int) (text junk : Str) (tables : List (List Str × Nat))
+    (hn : NUL ∉ text) :
+    shellExecute rcEmpty (text ++ NUL :: junk) tables
+      = some (dispatchSpec rcEmpty ((runs isWsArgv text).take SSHELL_ARGCMAX) tables) :=
+  shellExecute_spec' rcEmpty text junk tables hn
+
+theorem mshellExecute_spec (text junk : Str) (table : List Str) (hn : NUL ∉ text) :
+    mshellExecute (text ++ NUL :: junk) table
+      = some (dispatchSpec ENOENT ((runs isWsArgv text).take 10) [(table, 0)]) :=
+  shellExecute_spec' _ _ _ _ hn
+
+theorem mshellTablesExecute_spec (text junk : Str) (tables : List (List Str)) (hn : NUL ∉ text) :
+    mshellTablesExecute (text ++ NUL :: junk) tables
+      = some (dispatchSpec ENOENT ((runs isWsArgv text).take 10) (tables.map fun t => (t, 0))) :=
+  shellExecute_spec' _ _ _ _ hn
+
+theorem rshellExecute_spec (text junk : Str) (table : List Str) (dropargs : Nat) (hn : NUL ∉ text) :
+    rshellExecute (text ++ NUL :: junk) table dropargs
+      = some (dispatchSpec 0 ((runs isWsArgv text).take 10) [(table, dropargs)]) :=
+  shellExecute_spec' _ _ _ _ hn
+
+theorem rshellTablesExecute_spec (text junk : Str) (tables : List (List Str × Nat)) (hn : NUL ∉ text) :
+    rshellTablesExecute (text ++ NUL :: junk) tables
+      = some (dispatchSpec 0 ((runs isWsArgv text).take 10) tables) :=
+  shellExecute_spec' _ _ _ _ hn
+
+/-- a handler is invoked if and only if the line has a first token and that
+token is the name of an entry of one of the tables -/
+theorem dispatch_calls_iff (rcBlank : Int) (toks : List Str) (tables : List (List Str × Nat)) :
+    (dispatchSpec rcBlank toks tables).call.isSome
+      ↔ ∃ t0 rest, toks = t0 :: rest ∧ ∃ e ∈ tables, t0 ∈ e.1 := by
+  cases toks with
+  | nil => simp [dispatchSpec]
+  | cons t0 rest =>
+    simp only [dispatchSpec]
+    cases hf : findCmdTables t0 tables 0 with
+    | none =>
+      have := (findCmdTables_none_iff t0 tables 0).mp hf
+      simp only [Option.isSome_none, Bool.false_eq_true, false_iff]
+      rintro ⟨t, r, he, e, hmem, hin⟩
+      cases he
+      exact this e hmem hin
+    | some p =>
+      have hne : ¬ (∀ e ∈ tables, t0 ∉ e.1) := by
+        intro hall
+        have := (findCmdTables_none_iff t0 tables 0).mpr hall
+        rw [hf] at this; cases this
+      simp only [Option.isSome_some, true_iff]
+      refine ⟨t0, rest, rfl, ?_⟩
+      apply Classical.byContradiction
+      intro hno
+      exact hne (fun e he hin => hno ⟨e, he, hin⟩)
+
+/-- … and it is the handler of the *first* such entry, called with the tokens
+(minus `dropargs`): `h = 4 * table + entry` is the harness' numbering -/
+theorem dispatch_call_spec (rcBlank : Int) (toks : List Str) (tables : List (List Str × Nat))
+    (h : Nat) (argc : Int) (args : List Str)
+    (hc : (dispatchSpec rcBlank toks tables).call = some (h, argc, args)) :
+    ∃ t0 rest t i tbl drop, toks = t0 :: rest
+      ∧ h = 4 * t + i ∧ tables[t]? = some (tbl, drop) ∧ tbl[i]? = some t0
+      ∧ (∀ i', i' < i → tbl[i']? ≠ some t0)
+      ∧ (∀ t', t' < t → ∀ e, tables[t']? = some e → t0 ∉ e.1)
+      ∧ argc = (toks.length : Int) - drop ∧ args = toks.drop drop
+      ∧ (dispatchSpec rcBlank toks tables).rc = 0 := by
+  cases toks with
+  | nil => simp [dispatchSpec] at hc
+  | cons t0 rest =>
+    simp only [dispatchSpec] at hc ⊢
+    cases hf : findCmdTables t0 tables 0 with
+    | none => rw [hf] at hc; simp at hc
+    | some p =>
+      obtain ⟨k, drop⟩ := p
+      rw [hf] at hc
+      simp only [Option.some.injEq, Prod.mk.injEq] at hc
+      obtain ⟨t, i, tbl, hk, htab, hi, hfirst, hprev⟩ := findCmdTables_some_spec t0 tables 0 k drop hf
+      exact ⟨t0, rest, t, i, tbl, drop, rfl, by omega, htab, hi, hfirst, hprev, hc.2.1.symm, hc.2.2.symm, rfl⟩
+
+-- a line with tokens, a table that names the first one
+example : mshellExecute [0x61#8, 0x20#8, 0x62#8, NUL] [[0x62#8], [0x61#8]]
+    = some ⟨0, some (1, 2, [[0x61#8], [0x62#8]])⟩ := by decide
+-- blank line: tolerated
+example : mshellExecute [0x20#8, 0x09#8, NUL] [[0x61#8]] = some ⟨ENOENT, none⟩ := by decide
+
 end Igris.C19
